@@ -16,6 +16,7 @@ Functions:
 
 from __future__ import annotations
 
+import copy
 from dataclasses import dataclass
 from functools import partial
 from typing import TYPE_CHECKING, Protocol, cast
@@ -627,6 +628,8 @@ def response_coefficients(
 
     """
     if variables is not None:
+        # work on a copy, the caller's model keeps its initial values
+        model = copy.deepcopy(model)
         model.update_variables(variables)
 
     res = parallelise(
